@@ -252,7 +252,10 @@ int run_c06(verif::Args const& args, verif::Report& rep)
                         // The shared secondary stack ran out in this event: which track's
                         // allocation fails depends on the order in which slots are visited
                         vctx["secondary_buffer_exhausted"] = true;
-                        rep.violation("C06/history-mismatch/secondary-buffer-exhausted",
+                        bool order_changed = vs.track_order != ref_spec.track_order;
+                        vctx["first_difference"] = d;
+                        rep.violation(std::string("C06/history-mismatch/secondary-buffer-exhausted")
+                                          + (order_changed ? "" : "/same-order"),
                                       "the secondary buffer ran out during the target event and the per-track "
                                       "histories depend on the re-indexing order / state history",
                                       vctx);
